@@ -20,6 +20,7 @@ typedef soplex::DSVectorBase<Rat> DSV;
 typedef std::vector<std::pair<int, Q>> SpQ;
 typedef std::vector<std::vector<Q>> MatQ;
 
+static bool g_staleSinceSolve = false;   // see the known finding basis__rational_lu_stale_after_basis_replaced_without_pivots
 static bool knownHas(const std::string& key)
 {
    auto it = opts().x.find("known");
@@ -364,9 +365,13 @@ static bool query(Ctx& cx, const std::string& after)
          return false;
       }
    }
-   if(bset != basicSet && after == "solve" && sp.numIterations() == 0
+   // the stale cached factorisation of that known finding stays in place until the next solve that pivots; operations that
+   // do not touch the basis (objective / side / bound changes) observe the same stale state
+   if(after == "solve") g_staleSinceSolve = false;
+   if(bset != basicSet && ((after == "solve" && sp.numIterations() == 0) || g_staleSinceSolve)
          && knownHas("basis__rational_lu_stale_after_basis_replaced_without_pivots"))
    {
+      g_staleSinceSolve = true;
       e.count("excluded_known.basis__rational_lu_stale_after_basis_replaced_without_pivots");
       return true;
    }
@@ -511,6 +516,7 @@ static bool query(Ctx& cx, const std::string& after)
 
 static Verdict run(const Case& c)
 {
+   g_staleSinceSolve = false;
    Verdict v;
    Evidence& e = ev();
    SoPlex sp;
